@@ -27,7 +27,14 @@ func (t *tplGen) echoAction() string {
 
 func (t *tplGen) actionCode() string {
 	r := t.r
-	switch r.Intn(12) {
+	switch r.Intn(14) {
+	case 12, 13:
+		// writes to its event: every execution works on its own copy of the event (CopyEvents), so
+		// this is invisible to the other executions (whose echo actions return the event they see)
+		tag := fmt.Sprintf("t%d", r.Intn(3))
+		js := fmt.Sprintf(`event.tag = %s; event.k = "overwritten"; "set-%s"`, jsLit(tag), tag)
+		t.sem[js] = map[string]interface{}{"t": "const", "v": "set-" + tag}
+		return js
 	case 0:
 		js := `throw "boom"`
 		t.sem[js] = map[string]interface{}{"t": "throw"}
@@ -68,6 +75,27 @@ func (lg *locGen) eventsRule(o map[string]interface{}) {
 	rule := map[string]interface{}{"when": map[string]interface{}{"pattern": p}}
 	if r.Intn(2) == 0 {
 		rule["condition"] = qg.query(2)
+	}
+	if r.Intn(8) == 0 {
+		// an `or` whose disjuncts are code terms returning objects: each disjunct extends ITS OWN copy
+		// of the incoming binding, the results are concatenated
+		obj1 := func(f, v string) string {
+			js := fmt.Sprintf("({%s: %s})", jsLit(f), jsLit(v))
+			tpl.sem[js] = map[string]interface{}{"t": "obj", "f": map[string]interface{}{f: map[string]interface{}{"t": "const", "v": v}}}
+			return js
+		}
+		var ds []interface{}
+		for i := 0; i < 2+r.Intn(2); i++ {
+			ds = append(ds, map[string]interface{}{"code": obj1(pick(r, "x", "y", "z", "w").(string), fmt.Sprintf("v%d", i))})
+		}
+		if r.Intn(3) == 0 {
+			ds = append(ds, qg.query(1))
+		}
+		cond := map[string]interface{}{"or": ds}
+		if r.Intn(3) == 0 {
+			cond = map[string]interface{}{"and": []interface{}{cond, qg.query(1)}}
+		}
+		rule["condition"] = cond
 	}
 	n := 1 + r.Intn(3)
 	if n == 1 && r.Intn(2) == 0 {
